@@ -424,7 +424,10 @@ class SessionHandler:
                     SessionHandler.id += 1
                     return
 
-            SessionHandler.reset()
+            #: A different identity must not restart the (init, id) pair: a
+            #: restart within the same clock second would hand out (init, 0)
+            #: again and later ids would collide with ones already issued.
+            SessionHandler.id += 1
             return
         
         SessionHandler.id += 1
